@@ -96,7 +96,9 @@ pub fn learn_case(name: &'static str, input: Shape, layers: Vec<L>, nout: usize,
         family: "Network::learn",
         class: format!("N{}B{}", if n % batch == 0 { "div" } else { "rem" }, if batch > n { ">N" } else if batch == 1 { "=1" } else { "" }),
         no_ties: obj == Obj::AE,
-        max_paths: 1 << 12,
+        // (the large-group cases are about the grouping itself: a change that forks once per sample must not make them
+        // explore thousands of 100-sample paths)
+        max_paths: if n > 8 { 32 } else { 128 },
         run: Box::new(move |ctx| {
             let mut net = build_net(input.clone(), &layers);
             symbolize(ctx, &mut net, "");
@@ -301,6 +303,11 @@ pub fn cases(tier: Tier, seed: u64) -> Vec<Case> {
                 out.push(learn_case(name, input.clone(), layers.clone(), *nout, obj, *n, *b, *e));
             }
         }
+    }
+    // an objective whose loss can be exactly zero while its gradient is not (cross-entropy of a soft-max output)
+    out.push(learn_case("dense-softmax", Shape::Single(2), vec![L::Dense(2, Softmax, true)], 2, Obj::CrossEntropy, 2, 2, 1));
+    if full {
+        out.push(learn_case("dense-softmax", Shape::Single(2), vec![L::Dense(2, Softmax, true)], 2, Obj::CrossEntropy, 3, 2, 1));
     }
     // groups larger than the library's internal parallel chunk size (64) are still one group
     let one = vec![L::Dense(1, Linear, false)];
